@@ -182,6 +182,7 @@ func minimiseTrace(t *testing.T, tr *Trace, sim Sim) *Trace {
 					cand := cloneTree(tree)
 					na := append(append([]jnode{}, arr[:i]...), arr[i+n:]...)
 					cand = setAt(cand, p, cloneTree(na))
+					cand = linkLayouts(tree, cand, p)
 					if m.fails(cand, sched) {
 						tree = cand
 						progress = true
@@ -208,6 +209,7 @@ func minimiseTrace(t *testing.T, tr *Trace, sim Sim) *Trace {
 			for _, y := range shrinkInts(x) {
 				cand := cloneTree(tree)
 				cand = setAt(cand, p, json.Number(strconv.FormatInt(y, 10)))
+				cand = linkLayouts(tree, cand, p)
 				if m.fails(cand, sched) {
 					tree = cand
 					progress = true
@@ -284,4 +286,47 @@ func minimiseMain(t *testing.T) {
 	}
 	writeJSON(*flagMin+".min", out)
 	fmt.Printf("MINIMISED %d -> %d bytes\n", len(tr.Case), len(out.Case))
+}
+
+// linkLayouts keeps equal layouts equal: when the change at path p lies inside
+// a layout object (an object with an "archs" member), every other layout object
+// of the case that was identical to it before the change gets the same change.
+// The generators build worlds in which files, commands and the case share one
+// layout, and several oracles rely on that; a shrunk case in which one copy was
+// shrunk alone is outside that space and can fail for reasons of its own.
+func linkLayouts(before, cand jnode, p jpath) jnode {
+	var lp jpath
+	for n := len(p); n >= 0; n-- {
+		if m, ok := getAtSafe(before, p[:n]).(map[string]jnode); ok {
+			if _, has := m["archs"]; has {
+				lp = append(jpath{}, p[:n]...)
+				break
+			}
+		}
+	}
+	if lp == nil {
+		return cand
+	}
+	oldEnc := string(encodeTree(getAtSafe(before, lp)))
+	repl := getAtSafe(cand, lp)
+	var walk func(v jnode) jnode
+	walk = func(v jnode) jnode {
+		switch t := v.(type) {
+		case map[string]jnode:
+			if _, has := t["archs"]; has && string(encodeTree(t)) == oldEnc {
+				return cloneTree(repl)
+			}
+			for k, x := range t {
+				t[k] = walk(x)
+			}
+			return t
+		case []jnode:
+			for i, x := range t {
+				t[i] = walk(x)
+			}
+			return t
+		}
+		return v
+	}
+	return walk(cand)
 }
